@@ -485,10 +485,16 @@ fn c12_outcome(rng: &mut Rng, kind: &str, which: usize, tid: u16, unit: u8) -> S
         // transient read error
         6 => format!("call {rq} r=xk{}", 1 + rng.below(2)),
         // good reply followed by surplus bytes in the same read
-        _ => {
+        7 => {
             let mut f = frame(kind, tid, unit, &good_pdu);
             f.extend(rng.bytes_in(1, 12));
             format!("call {rq} r=d{}", hex_raw(&f))
+        }
+        // the reply breaks off after its head (address, function, byte count, …) with a read error
+        _ => {
+            let f = frame(kind, tid, unit, &good_pdu);
+            let k = rng.range(3, f.len() - 1);
+            format!("call {rq} r=d{},xk1", hex_raw(&f[..k]))
         }
     }
 }
@@ -498,15 +504,15 @@ const C12_FINAL_PDU: [u8; 4] = [0x03, 0x02, 0xBE, 0xEF];
 pub fn gen_c12(out: &mut Out, rng: &mut Rng, thorough: bool) {
     let depth = if thorough { 5 } else { 4 };
     for kind in ["tcp", "rtu"] {
-        let total = 8usize.pow(depth as u32);
+        let total = 9usize.pow(depth as u32);
         for code in 0..total {
             // all histories of length `depth` (shorter ones appear as prefixes ending in good exchanges)
             let unit = rng.u8();
             let mut line = format!("cli {kind} {}", hex8(unit));
             let mut c = code;
             for step in 0..depth {
-                let which = c % 8;
-                c /= 8;
+                let which = c % 9;
+                c /= 9;
                 line.push_str(" | ");
                 line.push_str(&c12_outcome(rng, kind, which, step as u16, unit));
             }
@@ -866,6 +872,28 @@ pub fn gen_c16(out: &mut Out, rng: &mut Rng, thorough: bool) {
     }
 }
 
+/// a call dropped after part of its reply has been read; the rest of that reply never comes
+pub fn gen_c16_partial(out: &mut Out, rng: &mut Rng, thorough: bool) {
+    for i in 0..(if thorough { 4000 } else { 400 }) {
+        let kind = if i % 2 == 0 { "tcp" } else { "rtu" };
+        let unit = rng.u8();
+        let n = rng.range(2, 20);
+        let reply1 = frame(kind, 0, unit, &spec::response_bytes(&Response::ReadHoldingRegisters(rng.words(n))).unwrap());
+        let k = rng.range(1, reply1.len() - 1);
+        let reply2 = frame(kind, 1, unit, &[0x03, 0x02, 0xCA, 0xFE]);
+        monitor_line(
+            out,
+            &format!(
+                "cli {kind} {} | call RHR:0000:{} b=2 r=d{},p,p | call RHR:0102:0001 r=d{}",
+                hex8(unit),
+                hex16(n as u16),
+                hex_raw(&reply1[..k]),
+                hex_raw(&reply2)
+            ),
+        );
+    }
+}
+
 pub fn mon_c16(out: &mut Out, l: &str, r: &str) {
     let (head, ops) = ops_of(l);
     if head[0] != "cli" || ops.len() != 2 || ops[0].name != "call" || ops[1].name != "call" {
@@ -1139,6 +1167,14 @@ pub fn mon_c01(out: &mut Out, l: &str, r: &str) {
         let (l2, r2) = out.case(&format!("srv {kind} svc=D r={}", chunks_tok(&ch)));
         out.check(r2 == expect, || format!("server side saw `{}` instead of `{}`", super::codec::trunc(&r2), super::codec::trunc(&expect)), &l2);
     }
+    // … also as the second request of a connection, after a longer request that arrived in pieces
+    let first = Request::WriteMultipleRegisters(0x0100, Cow::Owned(vec![1, 2, 3, 4, 5]));
+    let ff = frame(kind, tid.wrapping_sub(1), unit, &spec::request_bytes(&first).unwrap());
+    let mut chunks: Vec<Vec<u8>> = ff.chunks(4).map(<[u8]>::to_vec).collect();
+    chunks.push(w.clone());
+    let expect2 = format!("call {} {} | call {} {} | end blocked", hex8(unit), request(&first), hex8(unit), request(&req));
+    let (l2, r2) = out.case(&format!("srv {kind} svc=D,D r={}", chunks_tok(&chunks)));
+    out.check(r2 == expect2, || format!("second request of a connection: server side saw `{}` instead of `{}`", super::codec::trunc(&r2), super::codec::trunc(&expect2)), &l2);
 }
 
 // ================================================================ C02
